@@ -203,6 +203,31 @@ Print Assumptions blocker_run_diagnostics_sequential.
 Print Assumptions blocker_run_reports_sequential_blocker_partial.
 Print Assumptions blocker_run_reports_sequential_blocker_refuted.
 
+(* worker failure (blocker reply or crash, at any point of any schedule) never yields a partial result:
+   (i) every store record is the initial cache record or the sequential one, (ii) every printed diagnostic is the sequential
+   one of its SCC, (iii) either the failure is reported (abort, status 2) or, if the build completes, every record is the sequential one.
+   (Completeness of the PRINTED list at completion is covered through the committed error records, not proved for `flushed`.) *)
+Theorem worker_failure_never_yields_partial_result : forall (Src Iface Errs Blk : Type) nodes deps src ai am fr blk i0 e0 N,
+  wf nodes deps -> forall sched (bs : bstate Iface Errs Blk),
+  brun Src Iface Errs Blk nodes deps src ai am fr blk (binit Iface Errs Blk nodes deps i0 e0 N) sched = Some bs ->
+  (forall s, (s_iface (sto (bco bs)) s = i0 s \/ s_iface (sto (bco bs)) s = s_iface (run_sequential Src Iface Errs nodes deps src ai am fr i0 e0) s)
+          /\ (s_errs (sto (bco bs)) s = e0 s \/ s_errs (sto (bco bs)) s = s_errs (run_sequential Src Iface Errs nodes deps src ai am fr i0 e0) s))
+  /\ (forall s e, In (s, e) (flushed (bco bs)) -> s_errs (run_sequential Src Iface Errs nodes deps src ai am fr i0 e0) s = Some e)
+  /\ ((exists o, aborted bs = Some o /\ bstatus Iface Errs Blk bs = 2)
+      \/ (aborted bs = None /\ bstatus Iface Errs Blk bs = 0
+          /\ (finished Iface Errs nodes N (bco bs) = true ->
+              forall s, s_iface (sto (bco bs)) s = s_iface (run_sequential Src Iface Errs nodes deps src ai am fr i0 e0) s
+                     /\ s_errs (sto (bco bs)) s = s_errs (run_sequential Src Iface Errs nodes deps src ai am fr i0 e0) s))).
+Proof. exact ProofsBlocker.worker_failure_no_partial_result. Qed.
+
+(* fail-closed tie: the coordinator of the CURRENT source re-raises a blocker reply before using its results and turns a lost
+   worker connection into an error (flags regenerated by tools/extractors/t07.py), as Blocker.v models *)
+Theorem current_code_aborts_on_worker_failure : abort_on_blocker && abort_on_lost_worker = true.
+Proof. exact (eq_refl true). Qed.
+
+Print Assumptions worker_failure_never_yields_partial_result.
+Print Assumptions current_code_aborts_on_worker_failure.
+
 (* the hypotheses are satisfiable: a diamond with a cycle-free tail is a well-formed DAG ... *)
 Definition ex_nodes := [0; 1; 2; 3; 4].
 Definition ex_deps (s : nat) : list nat := match s with 1 => [0] | 2 => [0] | 3 => [1; 2] | 4 => [3; 0] | _ => [] end.
